@@ -724,6 +724,7 @@ Proof.
   - cbn [fst]. apply KR_crash.
   - cbn [fst]. apply KR_clean_cache; auto.
   - cbn [fst]. apply KR_age_all; auto.
+  - cbn [fst]. apply KR_build_cache; auto.
 Qed.
 
 Theorem KR_run : forall ops s, KR s -> KR (srun H s ops).
